@@ -1,4 +1,4 @@
-CONSTANTS TMAX = 2  MAXE = 3  MAXW = 1  ITERS = 2  KEYS = {0}  OPENEND = FALSE
+CONSTANTS TMAX = 1  MAXE = 2  MAXW = 1  ITERS = 2  KEYS = {0}  OPENEND = FALSE
 SPECIFICATION Spec
 INVARIANTS C13_Txn
 CHECK_DEADLOCK FALSE
